@@ -389,7 +389,7 @@ func overlap(a0, a1, b0, b1 int) bool { return a0 < a1 && b0 < b1 && a0 < b1 && 
 func TestC53(t *testing.T) {
 	m := mon.New(t, "C53")
 	defer m.Done()
-	m.Rule("exhaustive over the stated space: for every function (chacha20.XORKeyStream on a fresh cipher, on a cipher primed by a 1/17/63/65/100-byte call (63/47/1/63/28 key-stream bytes buffered; lengths equal to and one above the buffered amount are added, so calls fit in, exhaust and straddle the buffer) and after SetCounter; salsa20.XORKeyStream 8/24-byte nonce, xts.Encrypt/Decrypt, cipher.AEAD Seal/Open for chacha and xchacha on every path, secretbox/box(+AfterPrecomputation, Anonymous)/sign Seal|Sign and Open; salsa/salsa.XORKeyStream for exact/disjoint only) and every length in {1,15,16,17,63,64,65,200,1000} (xts: {16,32,48,64,80,208,1008}) the input sits at a fixed place of one guard-bordered arena and the output window starts at every offset -64..+64 from it, with dst prefix/capacity variations (empty prefix exact capacity, 5-byte prefix, spare capacity, capacity one byte short; stream functions: out longer than in where documented); AEAD additionally with the additional data placed at every offset -64..+64 from the output window. Expectation from the documentation, computed by the harness's own interval arithmetic: same start with the documented form (out==in, dst=in[:0]) or disjoint => no panic and the separate-buffer result; any other overlap => panic or the separate-buffer result (an authentication error from an Open-type function is recorded as failed-closed), never a wrong result without panic; no byte outside the output window may change. A concurrency stream repeats in-place, disjoint and inexactly overlapping calls from 8 goroutines at once, each in its own buffers: on shared values where sharing is legitimate (one cipher.AEAD, one *xts.Cipher, the salsa20 package function) and on one value per goroutine (AEAD, *chacha20.Cipher, *xts.Cipher), in a parallel pass and a GOMAXPROCS(1) pass, results judged after join against precomputed references. distinct = (function, path, length, expectation class, variation)")
+	m.Rule("exhaustive over the stated space: for every function (chacha20.XORKeyStream on a fresh cipher, on a cipher primed by a 1/17/63/65/100-byte call (63/47/1/63/28 key-stream bytes buffered; lengths equal to and one above the buffered amount are added, so calls fit in, exhaust and straddle the buffer) and after SetCounter; salsa20.XORKeyStream 8/24-byte nonce, xts.Encrypt/Decrypt, cipher.AEAD Seal/Open for chacha and xchacha on every path, secretbox/box(+AfterPrecomputation, Anonymous)/sign Seal|Sign and Open; salsa/salsa.XORKeyStream for exact/disjoint only) and every length in {1,15,16,17,63,64,65,200,1000} (xts: {16,32,48,64,80,208,1008}) the input sits at a fixed place of one guard-bordered arena and the output window starts at every offset -64..+64 from it, with dst prefix/capacity variations (empty prefix exact capacity, 5-byte prefix, spare capacity, capacity one byte short; stream functions: out longer than in where documented); AEAD additionally with the additional data placed at every offset -64..+64 from the output window. Expectation from the documentation, computed by the harness's own interval arithmetic: same start with the documented form (out==in, dst=in[:0]) or disjoint => no panic and the separate-buffer result; any other overlap => panic or the separate-buffer result (an authentication error from an Open-type function is recorded as failed-closed), never a wrong result without panic; no byte outside the output window may change. cipher.AEAD Open: every forbidden layout on which the authentic input panicked is presented again with a forged input (last tag bit flipped) and must panic again — the overlap check may not depend on authenticity (the failure path wipes the window, i.e. the overlapping caller-owned ciphertext or additional data). A concurrency stream repeats in-place, disjoint and inexactly overlapping calls from 8 goroutines at once, each in its own buffers: on shared values where sharing is legitimate (one cipher.AEAD, one *xts.Cipher, the salsa20 package function) and on one value per goroutine (AEAD, *chacha20.Cipher, *xts.Cipher), in a parallel pass and a GOMAXPROCS(1) pass, results judged after join against precomputed references. distinct = (function, path, length, expectation class, variation)")
 	m.Assume("reference = the same function on separate heap buffers, cross-checked where an independent oracle exists (RFC 8439 spec for chacha20/AEAD, libsodium " + sodiumaead.Version() + " for salsa20, secretbox, box, sign); xts has no independent oracle here (C13's concern)")
 	m.Assume("an Open-type function that returns its authentication error (no plaintext) for a forbidden overlap has failed closed: recorded (forbidden_overlap_failed_closed), not a violation — observed for the asm AEAD Open when dst overlaps only the tag bytes of the ciphertext")
 
@@ -585,6 +585,36 @@ func TestC53(t *testing.T) {
 					}
 				}
 			}
+			// cipher.AEAD Open: the overlap panic is a function of the layout, not of
+			// the content. Where the authentic input made Open panic, the same
+			// layout with a forged input (one tag bit flipped) must panic too
+			// instead of taking the authentication-failure path, which wipes the
+			// output window and with it the overlapping caller-owned ciphertext/ad.
+			if f.opener && f.path != "" && !strict && pv != nil {
+				copy(arena, template)
+				copy(in, inst.in)
+				in[inLen-1] ^= 0x01
+				if u.ad {
+					copy(ad, adBytes)
+				}
+				var ok2 bool
+				fault2, pv2 := guard.Run(func() { _, ok2 = inst.call(out, in, ad) })
+				m.Eval()
+				m.Count("forged_input_forbidden_overlap_calls", 1)
+				m.Count(f.path+"_forged_input_forbidden_overlap_calls", 1)
+				switch {
+				case fault2 != nil:
+					w := wit()
+					w["fault"], w["input"] = fault2.Err, "forged (last tag bit flipped)"
+					m.Violation("guard-fault:"+label, w)
+				case pv2 == nil:
+					w := wit()
+					w["input"], w["ok"], w["authentic_input_panic"] = "forged (last tag bit flipped)", ok2, fmt.Sprint(pv)
+					m.Violation("forged-input-skips-overlap-panic:"+label, w)
+				default:
+					m.Count("forged_input_forbidden_overlap_panics", 1)
+				}
+			}
 		}
 		for off := -64; off <= 64; off++ {
 			if u.ad {
@@ -619,6 +649,7 @@ func TestC53(t *testing.T) {
 		m.Gate(p+"_exact_calls", nAEAD*len(c53Lens)*2, "AEAD in-place calls (dst = in[:0]) on the "+p+" path")
 		m.Gate(p+"_forbidden_calls", nAEAD*len(c53Lens)*100, "AEAD calls with inexactly overlapping dst/in on the "+p+" path")
 		m.Gate(p+"_forbidden-ad_calls", nAEAD*len(c53Lens)*20, "AEAD calls with additional data overlapping the output on the "+p+" path")
+		m.Gate(p+"_forged_input_forbidden_overlap_calls", 2*len(c53Lens)*100, "AEAD Open calls with a forged input on a forbidden layout on the "+p+" path")
 		m.Gate(p+"_disjoint_calls", nAEAD*len(c53Lens)*10, "AEAD calls with disjoint buffers on the "+p+" path")
 	}
 	for _, st := range []string{"fits-in-buffer", "exhausts-buffer", "straddles-buffer", "after-setcounter"} {
